@@ -63,6 +63,7 @@ def plan(tier, seed):
     ]
     for off in (0, 1, 0x41, 0x61, 240):
         ch.append({"key": f"netbios/{off}", "kind": "netbios", "offset": off, "cost": 300})
+    ch.append({"key": "netbios/all-offsets", "kind": "netbios_offsets", "cost": 400})
     for c in b["alnum"]:
         ch.append({"key": f"stager/alnum4/{c}", "kind": "stager_alnum", "first": c, "cost": len(b["alnum"]) ** 3 // 100})
     return ch
@@ -151,6 +152,23 @@ def chunk_netbios(chunk, acc):
         if call(utils.netbios_decode, call(utils.netbios_encode, data)) != data:
             acc.fail("C20/netbios/roundtrip", {"kind": "netbios", "data": data.hex(), "offset": None}, data.hex(), "mismatch")
     acc.sample({"data": "a5", "offset": off, "encoded": bytes([off + 10, off + 5]).hex()})
+
+
+def chunk_netbios_offsets(chunk, acc):
+    """Every offset 0..240 x every single byte (and a few two-byte strings)."""
+    from dissect.cobaltstrike import utils
+
+    for off in range(0, 241):
+        acc.states += 1
+        for data in [bytes([b]) for b in range(256)] + [b"\x2c\xa5", b"\x00\xff", b"\x9f\x10"]:
+            acc.transitions += 1
+            enc = call(utils.netbios_encode, data, off)
+            exp = bytes(x for c in data for x in (off + (c >> 4), off + (c & 15)))
+            dec = call(utils.netbios_decode, enc, off) if not isinstance(enc, str) else enc
+            acc.case((off, data), outcome=None)
+            if enc != exp or dec != data:
+                acc.fail("C20/netbios/roundtrip/offset", {"kind": "netbios", "data": data.hex(), "offset": off}, data.hex(), dec if isinstance(dec, str) else dec.hex())
+    acc.sample({"offsets": "0..240", "data": "every single byte"})
 
 
 WIDTHS = {1: ("p8", "u8", None, None), 2: ("p16", "u16", "p16be", "u16be"), 4: ("p32", "u32", "p32be", "u32be"), 8: ("p64", "u64", "p64be", "u64be")}
